@@ -132,7 +132,7 @@ func VisitsAll(fn *ssa.Function, sel func(ssa.CallInstruction) bool, recv *ssa.P
 		// higher-order: fn hands a function to a helper that owns the loop
 		for _, cl := range Calls(fn) {
 			c2, isCall := cl.(*ssa.Call)
-			h := helperOf(cl)
+			h := loopHelperOf(cl)
 			if !isCall || h == nil {
 				continue
 			}
@@ -176,7 +176,7 @@ func VisitsAll(fn *ssa.Function, sel func(ssa.CallInstruction) bool, recv *ssa.P
 				}
 				passes := false
 				for pi, p := range h.Params {
-					if p.Name() == over && pi < len(args) && Strip(args[pi]) == ssa.Value(recv) {
+					if (PN(p) == over || p.Name() == over) && pi < len(args) && Strip(args[pi]) == ssa.Value(recv) {
 						passes = true
 					}
 				}
